@@ -139,6 +139,39 @@ pub fn run(ctx: &mut Ctx) {
             }
         }
     }
+    // missing / missing_some agree with var on the whole path space of C11 (trees x paths)
+    {
+        let depth = if ctx.tier_thorough && ctx.profile == "release" { 2 } else { 1 };
+        let ts = crate::spaces::c11::trees(depth, ctx.tier_thorough);
+        let ps = crate::spaces::c11::paths(ctx.tier_thorough);
+        for t in &ts {
+            if !ctx.mine() {
+                continue;
+            }
+            for p in &ps {
+                ctx.edge();
+                ctx.check("missing:path-space", &json!({"missing": [p]}), t);
+                ctx.check("missing_some:path-space", &json!({"missing_some": [1, [p, "§never§"]]}), t);
+            }
+            for i in -4i64..=4 {
+                ctx.check("missing:index-space", &json!({"missing": [i]}), t);
+                ctx.check("missing_some:index-space", &json!({"missing_some": [1, [i]]}), t);
+            }
+        }
+        // strings of every byte-width mix, integer and string-segment indices around both lengths
+        for st in al::s_uni(3) {
+            if !ctx.mine() {
+                continue;
+            }
+            let d = json!({"w": st});
+            for i in -8i64..=8 {
+                ctx.edge();
+                ctx.check("missing:string-index", &json!({"missing": [i, format!("{}", i)]}), &json!(st));
+                ctx.check("missing:string-index:path", &json!({"missing": [format!("w.{}", i)]}), &d);
+                ctx.check("missing_some:string-index:path", &json!({"missing_some": [1, [format!("w.{}", i)]]}), &d);
+            }
+        }
+    }
     // size probes: long key lists with the present keys at chosen positions
     for n in al::size_classes(ctx.tier_thorough) {
         if n > 300 {
@@ -159,6 +192,17 @@ pub fn run(ctx: &mut Ctx) {
                 ctx.check("missing_some:size-probe", &json!({"missing_some": [t, keys]}), &d);
             }
             let _ = o;
+        }
+        // the same key spelled as integer and as string (distinct keys), all absent / half present
+        for dd in [json!({"a": 1}), json!({"100": 1, "102": null}), json!(["p", "q"])] {
+            ctx.edge();
+            let keys: Vec<Value> = (0..n).map(|i| if i % 2 == 0 { json!(100 + (i / 2) as i64 % 7) } else { json!(format!("{}", 100 + (i / 2) % 7)) }).collect();
+            ctx.check("missing:size-probe:int-and-string", &op("missing", keys.clone()), &dd);
+            for t in [1usize, 2, n] {
+                ctx.check("missing_some:size-probe:int-and-string", &json!({"missing_some": [t, keys]}), &dd);
+            }
+            let keys2: Vec<Value> = (0..n).map(|i| if i % 2 == 0 { json!(i as i64 / 2) } else { json!(format!("{}", i / 2)) }).collect();
+            ctx.check("missing_some:size-probe:int-and-string:distinct", &json!({"missing_some": [n + 1, keys2]}), &dd);
         }
     }
     // data-carried lists, thresholds of other types, the array-first-operand rule
